@@ -3,8 +3,8 @@
 package htrim
 
 import (
-
 	"github.com/opsidian/parsley/combinator"
+	"github.com/opsidian/parsley/data"
 	"github.com/opsidian/parsley/parsley"
 	"github.com/opsidian/parsley/text"
 	"github.com/opsidian/parsley/text/terminal"
@@ -14,6 +14,7 @@ import (
 
 func init() {
 	rt.Register("C10_Modes", C10_Modes)
+	rt.Register("C10_TokenKinds", C10_TokenKinds)
 }
 
 func itoa(n int) string {
@@ -361,4 +362,89 @@ func C10_Modes() {
 		return
 	}
 	rt.Assert(true, "rejected-as-specified")
+}
+
+// C10_TokenKinds: every kind of terminal node as the right-trimmed token: the
+// literal (concrete) is followed by a run of 0..G symbolic bytes and a ')'.
+// Alone it ends after the literal; right-trimmed it keeps start, token and
+// value and ends after the whitespace run; in the composite modes likewise.
+func C10_TokenKinds() {
+	type kind struct {
+		lit string
+		p   parsley.Parser
+	}
+	kinds := []kind{
+		{"12", terminal.Integer("i")},
+		{"1.5", terminal.Float("f")},
+		{`"s"`, terminal.String("s", true)},
+		{"`s`", terminal.String("s", true)},
+		{"'c'", terminal.Char("c")},
+		{"true", terminal.Bool("b", "true", "false")},
+		{"false", terminal.Bool("b", "true", "false")},
+		{"5s", terminal.TimeDuration("d")},
+		{"nil", terminal.Nil("n", "nil")},
+		{"+", terminal.Op("+")},
+		{"if", terminal.Word("w", "if", 1)},
+		{"abc", terminal.Regexp("r", "ID", "identifier", `[a-z]+`, 0)},
+		{"a", terminal.Rune('a')},
+	}
+	k := kinds[rt.Choose("kind", len(kinds))]
+	rt.Note(k.lit)
+	in := []byte(k.lit)
+	in = append(in, gap("run", rt.Param("G", 2))...)
+	in = append(in, ')') // ends every kind of literal
+	run := len(k.lit)
+	for run < len(in)-1 && isWs(in[run]) {
+		run++
+	}
+	if run < len(in)-1 {
+		// the gap holds something else than whitespace: the literal may go on
+		// (digits, letters, a dot): no claim
+		for _, b := range in[len(k.lit) : len(in)-1] {
+			if !isWs(b) {
+				return
+			}
+		}
+	}
+	parseWith := func(p parsley.Parser) (parsley.Node, parsley.Error, int) {
+		cp := make([]byte, len(in))
+		copy(cp, in)
+		f := text.NewFile("f", cp)
+		rd := text.NewReader(f)
+		ctx := parsley.NewContext(parsley.NewFileSet(f), rd)
+		n, _, err := p.Parse(ctx, data.EmptyIntMap, rd.Pos(0))
+		return n, err, int(rd.Pos(0))
+	}
+	plain, err, base := parseWith(k.p)
+	if plain == nil || err != nil {
+		rt.Fail("kinds/plain-literal-rejected", k.lit)
+		return
+	}
+	rt.Assert(int(plain.ReaderPos())-base == len(k.lit), "kinds/plain-end")
+	rt.Cover("literal token parsed")
+	check := func(id string, p parsley.Parser, wantEnd int) {
+		n, err, b := parseWith(p)
+		if n == nil || err != nil {
+			rt.Fail("kinds/"+id+"-rejected", k.lit+" followed by "+show(in[len(k.lit):]))
+			return
+		}
+		rt.ObsInt(id+".end", int(n.ReaderPos())-b)
+		rt.Assert(int(n.Pos())-b == 0, "kinds/"+id+"-start")
+		rt.Assert(n.Token() == plain.Token(), "kinds/"+id+"-token")
+		if int(n.ReaderPos())-b != wantEnd {
+			rt.Fail("kinds/"+id+"-end", k.lit+" followed by "+show(in[len(k.lit):])+": ends at "+itoa(int(n.ReaderPos())-b)+", expected "+itoa(wantEnd))
+			return
+		}
+		l1, ok1 := plain.(parsley.LiteralNode)
+		l2, ok2 := n.(parsley.LiteralNode)
+		if ok1 != ok2 || ok1 && l1.Value() != l2.Value() {
+			rt.Fail("kinds/"+id+"-value", k.lit)
+		}
+	}
+	check("rtrim", text.RightTrim(k.p, text.WsSpacesNl), run)
+	check("trim", text.Trim(k.p), run)
+	check("ltrim", text.LeftTrim(k.p, text.WsSpacesNl), len(k.lit))
+	if run > len(k.lit) {
+		rt.Cover("whitespace after the literal")
+	}
 }
